@@ -1,3 +1,6 @@
 import Lean
 /-- simp set for symbolic evaluation of `awp` (the scanning discipline) -/
 register_simp_attr awp_simp
+
+/-- simp set for symbolic evaluation of `cwp` (first token at the BOM end) -/
+register_simp_attr cwp_simp
